@@ -57,6 +57,7 @@ def run(ctx):
             keep = set(id(s) for s in sub[::stride]) | set(id(s) for s in sub if s["op"].endswith(".stale") or s["k"] == 0)
             scns = [s for s in scns if s["fault"] != fk or id(s) in keep]
     results, died = faultlib.run_batches(ctx, scns, "C06", workers=12)
+    tried = {}
     for i, sc in enumerate(scns):
         rr = results.get(i)
         ctx.count()
@@ -68,7 +69,18 @@ def run(ctx):
             ctx.violation("C06:%s:%s:process-died" % (sc["op"], sc["fault"]),
                           "the process died (panic in a library goroutine) during this scenario:\n" + [d[1] for d in died if d[0] == i][0][-1800:], sc)
         elif not rr["ok"]:
-            ctx.violation(rr["sig"], rr["detail"], sc)
+            # V2: a candidate must reproduce when it runs alone (at most 4 re-executions per signature)
+            st = tried.setdefault(rr["sig"], {"ok": 0, "tries": 0})
+            if st["ok"]:
+                ctx.violation(rr["sig"], rr["detail"], sc)
+            elif st["tries"] < 4:
+                st["tries"] += 1
+                again = ctx.run_harness("isolated", [sc], args=["fault"], env={"VERIF_WORKERS": "1"})
+                if again and (again[0].get("died") or not again[0].get("ok", True)):
+                    st["ok"] += 1
+                    ctx.violation(again[0].get("sig", rr["sig"]), again[0].get("detail", rr["detail"]), sc)
+                else:
+                    ctx.notes.setdefault("unreproduced_candidates", []).append({"scenario": sc, "first": rr["detail"][:300]})
     ctx.traces_validated = len(scns)
     ctx.sample({"scenario": scns[len(scns) // 2]})
     ctx.notes["operations"] = [o["name"] for o in ops]
